@@ -34,8 +34,14 @@ inductive Stmt where
   | output (n : Name)
 deriving Repr, Inhabited, DecidableEq
 
-/-- the four regex passes: statements in the order the reader processes them -/
-def parse (text : String) : Option (List Stmt) := do
+/-- `"\n".join(line.split("#", 1)[0] for line in netlist.split("\n"))`: a `#` starts a comment that runs to the end of
+    the line (fix K45: the reader used to honour `#OUTPUT(a)` and the writer's own `# <name>` header) -/
+def stripComments (s : String) : String :=
+  "\n".intercalate ((s.splitOn "\n").map (fun l => (l.splitOn "#").headD ""))
+
+/-- the four regex passes (over the text without its comments): statements in the order the reader processes them -/
+def parse (text0 : String) : Option (List Stmt) := do
+  let text := stripComments text0
   let ins ← Regex.findall (rx 0).1 text (rx 0).2
   let gates ← Regex.findall (rx 1).1 text (rx 1).2
   let dffs ← Regex.findall (rx 2).1 text (rx 2).2
